@@ -314,6 +314,7 @@ def run(ck: Check):
     # ... and with keep-last (maintain_last_element) among the operations (own generator): the counters are those of the
     # one element kept (F48: before the repair the inherited method left num_true untouched)
     krng = _random.Random(181819)
+    aqk_cases = []
     for k in range(40 if not thorough else 300):
         cap = krng.choice([1, 2, 3, 4])
         a = AccuracyQueue(max_len=cap)
@@ -351,6 +352,24 @@ def run(ck: Check):
                 break
         ck.case(dict(kind="accuracy-queue-ops-keep-last", cap=cap, n=len(hist)), nontrivial="K" in hist, key=repr(("aqkeep", cap, hist)))
         ck.count("accuracy_queue_keep_last_sequences")
+        aqk_cases.append((cap, list(hist), (int(a.count), int(a.num_true), int(a.num_false), [bool(a.queue[(a.first + j) % cap]) for j in range(a.count)])))
+    # Model/AQueue.v ([aq_ops aq_keep]) on the same operation sequences (a dequeue on an empty queue is rejected and leaves
+    # the object as it was, in the model as in the run above, which skips it)
+    opc = {"T": "Enq true", "F": "Enq false", "D": "Deq", "K": "Keep", "C": "Clr"}
+    exprs = [
+        "(let a := fst (aq_ops aq_keep (aq_init " + str(cap) + ") [" + "; ".join(opc[o] for o in hist) + "]) in "
+        "(aq_size a, aq_num_true a, aq_num_false a, cq_abs (a_q a)))"
+        for cap, hist, _ in aqk_cases
+    ]
+    res = coq_eval("C18k", HDR + "From FV Require Import AQueue.\n", exprs)
+    for (cap, hist, obs), r in zip(aqk_cases, res):
+        ck.corr_cases += 1
+        def _b(x):
+            # an `option bool` slot comes back as ('Some', True / False)
+            return bool(x[1]) if isinstance(x, tuple) and len(x) == 2 and x[0] == "Some" else bool(x)
+        mo = (int(r[0]), int(r[1]), int(r[2]), [_b(x) for x in r[3]])
+        if mo != obs:
+            ck.mismatch("Model/AQueue.v aq_ops vs AccuracyQueue", dict(max_len=cap, ops=hist, impl=obs, model=mo))
     # EWMA at the ends of its range and on extreme magnitudes: mean = alpha x + (1 - alpha) mean as written (exact for
     # alpha = 1: the last value; finite whenever the weighted sum is)
     for alpha, xs in ((1.0, [1e16, 1.0, -3.0]), (1.0, [-1e300, 2.5]), (0.0, [5.0, 1e300]), (0.1, [1.7e308, -1.7e308, 1.7e308]), (0.5, [1e308, 1e308, -1e308])):
